@@ -83,6 +83,7 @@ type subscriber struct {
 	events  []ev
 	closed  bool
 	yield   *vk.Rand // pacing of the consumer (nil = none); only used by the consumer goroutine
+	hold    chan struct{}
 	openedN int64    // logical time at which Pull returned
 }
 
@@ -99,6 +100,8 @@ type world struct {
 	mu      sync.Mutex
 	commits []commit // ground truth commit order, appended under the resource's write lock
 	tagN    int64
+
+	holdNext chan struct{} // given to the next subscriber as its hold gate
 }
 
 type commit struct {
@@ -162,8 +165,12 @@ func idOfTag(tag string) string {
 
 func (w *world) subscribe(spec subSpec, pace *vk.Rand) *subscriber {
 	ctx, cancel := context.WithCancel(context.Background())
-	s := &subscriber{spec: spec, cancel: cancel, yield: pace}
+	s := &subscriber{spec: spec, cancel: cancel, yield: pace, hold: w.holdNext}
+	w.holdNext = nil
 	pause := func() {
+		if s.hold != nil {
+			<-s.hold // a reader that pauses after every event until it is let go (closing the channel lets it run freely)
+		}
 		if s.yield != nil {
 			for k := s.yield.Intn(4); k > 0; k-- {
 				runtime.Gosched()
@@ -447,6 +454,11 @@ func (w *world) judge(s *subscriber, init map[string]*tat, results []wres, write
 			if e.typ == types.ChangeType_REMOVE {
 				delete(view, e.id)
 			} else {
+				if e.new == nil {
+					// an event that is not a removal says "the item now has this value": without a value the view
+					// would hold an item that has nothing in it
+					out = append(out, verdict{"C03/fold/" + s.spec.class() + "/valueless-event", fmt.Sprintf("a %s event for id %q carries no new value\n%s", e.typ, e.id, ctx())})
+				}
 				view[e.id] = e.new
 			}
 		}
@@ -565,6 +577,7 @@ type scenario struct {
 	B       wop     `json:"b"`
 	Window  string  `json:"window,omitempty"`
 	Writers int     `json:"writers,omitempty"`
+	History []wop   `json:"history,omitempty"`
 }
 
 func forced(r *vk.Run) {
@@ -598,6 +611,19 @@ func forced(r *vk.Run) {
 					}
 					scs = append(scs, scenario{Name: "F4-write-right-after-subscribe", IsValue: isValue, Present: present, Sub: sub, A: a, B: a, Window: "none"})
 				}
+				// F5: a lossy reader pauses (it holds one event) while one writer runs a whole history on the item, then
+				// carries on: whatever was merged meanwhile, the fold must end at the store's state
+				if !isValue && !sub.BP {
+					for _, h := range [][]wop{
+						{{"delete", "a"}, {"add", "a"}, {"delete", "a"}},
+						{{"delete", "a"}, {"add", "a"}, {"update", "a"}},
+						{{"upsert", "a"}, {"delete", "a"}, {"add", "a"}, {"delete", "a"}},
+						{{"update", "a"}, {"delete", "a"}, {"upsert", "a"}, {"update", "a"}},
+						{{"delete", "a"}, {"upsert", "a"}, {"delete", "a"}, {"add", "a"}},
+					} {
+						scs = append(scs, scenario{Name: "F5-paused-lossy-reader", IsValue: false, Present: present, Sub: sub, A: h[0], B: h[len(h)-1], Window: "none", History: h})
+					}
+				}
 				// F1: subscriber parked between snapshot and listen while writers run
 				for nw := 1; nw <= 3; nw++ {
 					a := wop{Kind: "set"}
@@ -625,6 +651,13 @@ func scKey(sc scenario) string {
 	res := "collection"
 	if sc.IsValue {
 		res = "value"
+	}
+	if len(sc.History) > 0 {
+		var ks []string
+		for _, o := range sc.History {
+			ks = append(ks, o.Kind)
+		}
+		return fmt.Sprintf("%s/%s/%s", sc.Name, res, strings.Join(ks, ","))
 	}
 	return fmt.Sprintf("%s/%s/%s,%s@%s", sc.Name, res, sc.A.Kind, sc.B.Kind, sc.Window)
 }
@@ -680,6 +713,19 @@ func runForced(r *vk.Run, sched *vk.Sched, sc scenario) {
 		ts.Wait()
 		do(sc.B, 1)
 		writers = 1 // A and B do not overlap each other
+	case "F5-paused-lossy-reader":
+		gate := make(chan struct{})
+		w.holdNext = gate
+		sub = w.subscribe(sc.Sub, nil)
+		r.MustQuiesce("c03-f5-sub")
+		// a first write occupies the reader (it takes that event and then pauses), the history piles up behind it
+		do(wop{Kind: "upsert", ID: "b"}, 0)
+		for _, op := range sc.History {
+			do(op, 0)
+		}
+		vk.Quiesce()
+		close(gate)
+		writers = 1
 	case "F4-write-right-after-subscribe":
 		sub = w.subscribe(sc.Sub, nil)
 		do(sc.A, 0)
